@@ -445,6 +445,8 @@ func (s *Store[H]) setHead(ctx context.Context, write datastore.Write, to uint64
 
 	// update the contiguous head
 	s.contiguousHead.Store(&newHead)
+	// and the published height, which has to follow the head down as well
+	s.heightSub.Init(newHead.Height())
 	if err := writeHeaderHashTo(ctx, write, newHead, headKey); err != nil {
 		return fmt.Errorf("writing headKey in batch: %w", err)
 	}
